@@ -604,7 +604,8 @@ def r6_daily_time_parser(ctx, facts):
     if len(mk) == 1 and len(mk[0]["args"]) == 2:
         def part(a, unit, idx):
             st = [x for x in walk(a) if is_call(x, r"^std::stoi$")]
-            ix = [const_val(y["args"][1]) for x in st for y in walk(x) if y["k"] == "CXXOperatorCallExpr" and short(y.get("callee") or "").endswith("operator[]")]
+            ix = [const_val(y["args"][1]) for x in st for y in walk(x) if y["k"] == "CXXOperatorCallExpr" and short(y.get("callee") or "").endswith("operator[]")] + \
+                [const_val(y["args"][0]) for x in st for y in walk(x) if is_call(y, r"std::vector<.*>::at$")]
             a_ = strip(a, casts=True)
             return len(st) == 1 and ix == [idx] and unit in (a_.get("ty") or "")
         ok_c = part(mk[0]["args"][0], "hours", 0) and part(mk[0]["args"][1], "minutes", 1)
